@@ -95,6 +95,7 @@ type Exec struct {
 	frameLocs []modLoc
 	nopanic bool
 	nonil   bool
+	nilsweep bool // panic.nil obligations for dereferences of call results / map lookups / comma-ok results
 	hasDefer bool
 	abstractedGuards []string
 	cur    *blockState
@@ -549,6 +550,51 @@ func (ex *Exec) panicOblig(kind string, pos token.Pos, want func(ast.Node) bool,
 
 func hasPropStr(a, b string) bool { return a == b }
 
+func isSelectorOrStmt(n ast.Node) bool {
+	if _, ok := n.(*ast.SelectorExpr); ok {
+		return true
+	}
+	return isStmt(n)
+}
+
+// mayBeNilResult: v is (a copy of) something a callee or a map handed back: the usual
+// carriers of "not found" nils. Parameters, fields, fresh allocations and the pointer a
+// type switch finds inside an interface are not (an input invariant, or evident).
+func mayBeNilResult(v ssa.Value, depth int) bool {
+	if depth > 3 {
+		return false
+	}
+	switch x := v.(type) {
+	case *ssa.Call:
+		if _, isB := x.Call.Value.(*ssa.Builtin); isB {
+			return false
+		}
+		return true
+	case *ssa.Lookup:
+		return true
+	case *ssa.Extract:
+		switch x.Tuple.(type) {
+		case *ssa.Call:
+			return true
+		case *ssa.Lookup:
+			return x.Index == 0
+		}
+		return false
+	case *ssa.ChangeType:
+		return mayBeNilResult(x.X, depth+1)
+	case *ssa.Phi:
+		for _, e := range x.Edges {
+			if c, isC := e.(*ssa.Const); isC && c.Value == nil {
+				return true
+			}
+			if mayBeNilResult(e, depth+1) {
+				return true
+			}
+		}
+	}
+	return false
+}
+
 func isIndexExpr(n ast.Node) bool { _, ok := n.(*ast.IndexExpr); return ok }
 func isSliceExpr(n ast.Node) bool { _, ok := n.(*ast.SliceExpr); return ok }
 func isAssertExpr(n ast.Node) bool {
@@ -858,8 +904,8 @@ func (ex *Exec) instr(in ssa.Instruction) {
 			np.typ = f.Type()
 			ex.vals[i] = &Val{P: &np}
 		} else {
-			if ex.nonil {
-				ex.panicOblig("nil", i.Pos(), isStmt, fmt.Sprintf("(not (= %s 0))", x.T))
+			if ex.nonil || (ex.nilsweep && mayBeNilResult(i.X, 0)) {
+				ex.panicOblig("nil", i.Pos(), isSelectorOrStmt, fmt.Sprintf("(not (= %s 0))", x.T))
 			} else {
 				// A-NONNIL: execution continues past a field access only if the pointer was non-nil
 				vc.assume(fmt.Sprintf("(=> %s (not (= %s 0)))", g, x.T))
